@@ -110,16 +110,60 @@ MultiPointAlg(c1, c2, ix) ==
          MultiPointAlg(TLCEval(Sub(c1, 0, d) \o Sub(c2, d, Len(c2))),
                        TLCEval(Sub(c2, 0, d) \o Sub(c1, d, Len(c1))), Tail(ix))
 
-(* uniform_crossover(parent1, parent2, mask): swap where the mask is set   *)
+(* Parents of UNEQUAL length.  The helpers accept them (the contracts only *)
+(* bound the number of cuts / the mask and alpha lengths by both parents,  *)
+(* the components cut inside `min(len1, len2)`, multi_point_crossover has  *)
+(* a branch of its own for them).  What C13 demands of the two children is *)
+(* `PairConserved`: they have the parents' lengths, every position inside  *)
+(* the shorter parent holds the two parental genes of that position, one   *)
+(* in each child, and a position beyond the shorter parent - which exists  *)
+(* in one parent and therefore in one child only - holds the longer        *)
+(* parent's gene of that position.  (For equal lengths this is the clause  *)
+(* "each position holds one of the two parental genes, both conserved".)   *)
+LongOf(p, q) == IF Len(p) >= Len(q) THEN p ELSE q
+PairConserved(p, q, c1, c2) ==
+    LET mn == Lo(Len(p), Len(q))
+        long == LongOf(p, q)
+    IN /\ \/ Len(c1) = Len(p) /\ Len(c2) = Len(q)
+          \/ Len(c1) = Len(q) /\ Len(c2) = Len(p)
+       /\ \A j \in 1..mn : (c1[j] = p[j] /\ c2[j] = q[j]) \/ (c1[j] = q[j] /\ c2[j] = p[j])
+       /\ \A j \in (mn + 1)..Len(long) : (Len(c1) >= j => c1[j] = long[j]) /\ (Len(c2) >= j => c2[j] = long[j])
+(* Which n-point crossover of unequal parents is returned is not           *)
+(* documented, so a reply is judged by the relation only (MultiPointURel). *)
+(* Constructive reference (model checking only) = what the helper does:    *)
+(* the children exchange their HEADS at every cut but the last one given,  *)
+(* and at the last one each keeps its head and continues with the tail of  *)
+(* the other parent (child 1 ends like parent 2 and has its length).       *)
+MultiPointU(p, q, ix) ==
+    LET k == Len(ix)
+        last == ix[k]
+        own(j) == Cardinality({i \in 1..k - 1 : ix[i] > j - 1}) % 2 = 0     \* j 1-based, j <= last
+    IN << [j \in 1..Len(q) |-> IF j <= last THEN (IF own(j) THEN p[j] ELSE q[j]) ELSE q[j]],
+          [j \in 1..Len(p) |-> IF j <= last THEN (IF own(j) THEN q[j] ELSE p[j]) ELSE p[j]] >>
+RECURSIVE MultiPointUAlg(_, _, _, _, _)
+MultiPointUAlg(c1, c2, p, q, ix) ==
+    IF ix = <<>> THEN <<c1, c2>>
+    ELSE LET d == ix[1] IN
+         IF Len(ix) > 1
+         THEN MultiPointUAlg(TLCEval(Sub(c2, 0, d) \o Sub(c1, d, Len(c1))),
+                             TLCEval(Sub(c1, 0, d) \o Sub(c2, d, Len(c2))), p, q, Tail(ix))
+         ELSE << Sub(c1, 0, d) \o Sub(q, d, Len(q)), Sub(c2, 0, d) \o Sub(p, d, Len(p)) >>
+MultiPointAny(p, q, ix) == IF Len(p) = Len(q) THEN MultiPoint(p, q, ix) ELSE MultiPointU(p, q, ix)
+
+(* uniform_crossover(parent1, parent2, mask): swap where the mask is set.  *)
+(* (Unequal lengths: only positions both parents have can be swapped; each *)
+(* child is its parent with the swapped elements, so it keeps its length.) *)
 Uniform(p, q, m) ==
-    << [j \in 1..Len(p) |-> IF m[j] = 1 THEN q[j] ELSE p[j]],
-       [j \in 1..Len(p) |-> IF m[j] = 1 THEN p[j] ELSE q[j]] >>
+    << [j \in 1..Len(p) |-> IF j <= Len(q) /\ m[j] = 1 THEN q[j] ELSE p[j]],
+       [j \in 1..Len(q) |-> IF j <= Len(p) /\ m[j] = 1 THEN p[j] ELSE q[j]] >>
 
 (* arithmetic_crossover with alphas = ix[j]/4; children are returned       *)
-(* multiplied by 4 (exact in integers and, for small values, in f64)       *)
+(* multiplied by 4 (exact in integers and, for small values, in f64).      *)
+(* (Unequal lengths: the elements both parents have are interpolated, the  *)
+(* others are kept.)                                                       *)
 Arith4(p, q, ix) ==
-    << [j \in 1..Len(p) |-> ix[j] * p[j] + (4 - ix[j]) * q[j]],
-       [j \in 1..Len(p) |-> ix[j] * q[j] + (4 - ix[j]) * p[j]] >>
+    << [j \in 1..Len(p) |-> IF j <= Len(q) THEN ix[j] * p[j] + (4 - ix[j]) * q[j] ELSE 4 * p[j]],
+       [j \in 1..Len(q) |-> IF j <= Len(p) THEN ix[j] * q[j] + (4 - ix[j]) * p[j] ELSE 4 * q[j]] >>
 
 (* arithmetic_crossover on real genes far outside the exactly computable   *)
 (* range (op "arith_x": +-f64::MAX, 1e17 next to 0.1, huge next to tiny,   *)
@@ -194,10 +238,13 @@ ValidFn(a) ==
     CASE a.op \in SwapOps  -> Len(a.ix) >= 2 /\ IsInj(a.ix) /\ IdxIn(a.ix, n)
       [] a.op \in TransOps -> /\ 0 <= a.a /\ a.a <= a.b /\ a.b <= n /\ a.a < n
                               /\ 0 <= a.i /\ a.i < n /\ a.i + (a.b - a.a) <= n
-      [] a.op = "multi_point" -> /\ Len(a.q) = n /\ Len(a.ix) >= 1 /\ Len(a.ix) < n
-                                 /\ IsInj(a.ix) /\ IdxIn(a.ix, n)
-      [] a.op = "uniform"     -> Len(a.q) = n /\ Len(a.ix) = n /\ \A k \in 1..n : a.ix[k] \in {0, 1}
-      [] a.op = "arithmetic"  -> Len(a.q) = n /\ Len(a.ix) = n /\ \A k \in 1..n : a.ix[k] \in 0..4
+      \* (the helper contracts: 1 <= number of cuts < both lengths; mask / alphas at least as long as both
+      \*  parents.  Cuts lie inside the shorter parent; a mask swaps only positions both parents have.)
+      [] a.op = "multi_point" -> /\ Len(a.ix) >= 1 /\ Len(a.ix) < n /\ Len(a.ix) < Len(a.q)
+                                 /\ IsInj(a.ix) /\ IdxIn(a.ix, Lo(n, Len(a.q)))
+      [] a.op = "uniform"     -> /\ Len(a.ix) >= Hi(n, Len(a.q)) /\ \A k \in DOMAIN a.ix : a.ix[k] \in {0, 1}
+                                 /\ \A k \in DOMAIN a.ix : k > Lo(n, Len(a.q)) => a.ix[k] = 0
+      [] a.op = "arithmetic"  -> Len(a.ix) >= Hi(n, Len(a.q)) /\ \A k \in DOMAIN a.ix : a.ix[k] \in 0..4
       [] a.op = "arith_x"     -> /\ Len(a.q) = n /\ Len(a.ix) = n /\ \A k \in 1..n : a.ix[k] \in 0..AlphaTop
                                  /\ \A k \in 1..n : a.p[k] >= 1 /\ a.q[k] >= 1
       [] a.op = "cycle"       -> Len(a.q) = n /\ IsInj(a.p) /\ IsInj(a.q) /\ Range(a.p) = Range(a.q)
@@ -208,14 +255,19 @@ Pair(k, cc) == R(k, cc[1], cc[2])
 ApplyFn(a) ==
     CASE a.op \in SwapOps     -> R("ok", CircularSwap(a.p, a.ix), <<>>)
       [] a.op \in TransOps    -> R("ok", Translocate(a.p, a.a, a.b, a.i), <<>>)
-      [] a.op = "multi_point" -> Pair("ok", MultiPoint(a.p, a.q, a.ix))
+      [] a.op = "multi_point" -> Pair("ok", MultiPointAny(a.p, a.q, a.ix))
       [] a.op = "uniform"     -> Pair("ok", Uniform(a.p, a.q, a.ix))
       [] a.op = "arithmetic"  -> Pair("ok", Arith4(a.p, a.q, a.ix))
       [] a.op = "cycle"       -> Pair("ok", CycleX(a.p, a.q))
 
 (* One helper call: a valid call never panics and returns the oracle value *)
-(* (for "arith_x": a reply related to the arguments by ArithXRel).         *)
-FnRel(a, r) == IF a.op = "arith_x" THEN ArithXRel(a, r) ELSE r = ApplyFn(a)
+(* (for "arith_x": a reply related to the arguments by ArithXRel; for a    *)
+(* multi-point crossover of parents of unequal length: by MultiPointURel). *)
+UnequalMP(a) == a.op = "multi_point" /\ Len(a.p) # Len(a.q)
+MultiPointURel(a, r) == r.k = "ok" /\ PairConserved(a.p, a.q, r.c1, r.c2)
+FnRel(a, r) == IF a.op = "arith_x" THEN ArithXRel(a, r)
+               ELSE IF UnequalMP(a) THEN MultiPointURel(a, r)
+               ELSE r = ApplyFn(a)
 DoFn(a) == /\ ValidFn(a)
            /\ act' = a
            /\ IF a.op = "arith_x" THEN res' = ArithXModel(a) ELSE res' = ApplyFn(a)
@@ -234,22 +286,25 @@ PermutationClosure ==
           /\ SameElems(res.c1, act.p) /\ IsInj(res.c1)
           /\ SameElems(res.c2, act.p) /\ IsInj(res.c2)
 
-(* every position holds one of the two parental genes, both are conserved  *)
+(* every position holds one of the two parental genes, both are conserved; *)
+(* the children have the parents' lengths (parents of equal and of unequal *)
+(* length, see PairConserved)                                              *)
 GeneConservation ==
     act.op \in {"multi_point", "uniform", "cycle"} =>
-        /\ Len(res.c1) = Len(act.p) /\ Len(res.c2) = Len(act.q)
-        /\ \A j \in 1..Len(act.p) :
-              \/ res.c1[j] = act.p[j] /\ res.c2[j] = act.q[j]
-              \/ res.c1[j] = act.q[j] /\ res.c2[j] = act.p[j]
+        PairConserved(act.p, act.q, res.c1, res.c2)
 
-(* arithmetic crossover: convex combination, sum conserved                 *)
+(* arithmetic crossover: convex combination, sum conserved; a position     *)
+(* only one parent has keeps its gene                                      *)
 ArithConvex ==
     act.op = "arithmetic" =>
-        /\ Len(res.c1) = Len(act.p) /\ Len(res.c2) = Len(act.p)
-        /\ \A j \in 1..Len(act.p) :
+        LET mn == Lo(Len(act.p), Len(act.q)) IN
+        /\ Len(res.c1) = Len(act.p) /\ Len(res.c2) = Len(act.q)
+        /\ \A j \in 1..mn :
               /\ 4 * Lo(act.p[j], act.q[j]) <= res.c1[j] /\ res.c1[j] <= 4 * Hi(act.p[j], act.q[j])
               /\ 4 * Lo(act.p[j], act.q[j]) <= res.c2[j] /\ res.c2[j] <= 4 * Hi(act.p[j], act.q[j])
               /\ res.c1[j] + res.c2[j] = 4 * (act.p[j] + act.q[j])
+        /\ \A j \in (mn + 1)..Len(act.p) : res.c1[j] = 4 * act.p[j]
+        /\ \A j \in (mn + 1)..Len(act.q) : res.c2[j] = 4 * act.q[j]
 
 (* ... on extreme genes: finite, between the parents, conserved; the ends  *)
 (* of the alpha range return the parental genes                            *)
@@ -285,7 +340,7 @@ TwinSwap ==
 TwinTranslocate ==
     act.op \in TransOps => TranslocateRot(act.p, act.a, act.b, act.i) = res.c1
 MultiPointTailSwaps ==
-    act.op = "multi_point" => MultiPointAlg(act.p, act.q, act.ix) = <<res.c1, res.c2>>
+    (act.op = "multi_point" /\ Len(act.p) = Len(act.q)) => MultiPointAlg(act.p, act.q, act.ix) = <<res.c1, res.c2>>
 
 (* cycle crossover exchanges whole cycles only                             *)
 CycleWhole ==
@@ -319,7 +374,9 @@ CycleWhole ==
 (*           w = 2 MutationStrength := ladder index v, of identifier id    *)
 (* The parameters an execution must obey are DERIVED by the spec from      *)
 (* these arguments (Built, RegOf, Eff below), not logged by the harness.   *)
-(* cact.dim  problem dimension; cact.nrel = 0 iff 1 <= np < dim            *)
+(* cact.dim  problem dimension; cact.nrel = 0 iff 1 <= np < the length of   *)
+(*           the shortest individual (= dim unless the population is       *)
+(*           ragged or empty)                                              *)
 (* cact.pin  top population before (sequence of integer sequences);        *)
 (* cact.base the population below it (DE crossovers), else <<>>            *)
 (* cres.k    "ok" | "err" (execute returned Err) | "ctor_err" (constructor *)
@@ -343,8 +400,14 @@ CycleWhole ==
 (* 0 bit-identical / 1 changed and the component's range predicate holds / *)
 (* 2 changed and it fails (Normal-, UniformMutation: finite;               *)
 (* PartialRandomSpread: inside the domain).  ArithmeticCrossover, DEMutation: pin[j] is     *)
-(* filled with the tag j, out[o] with the tag of the bit-identical input   *)
-(* vector (0 = new vector); pred / pred2 as described at the relations.    *)
+(* filled with the tag of individual j (j, or the least index of a         *)
+(* bit-identical individual), out[o] with the tag of the bit-identical     *)
+(* input vector (0 = new vector); pred / pred2 as described at the         *)
+(* relations.                                                              *)
+(* Populations of the crossovers contain DUPLICATES (identical adjacent    *)
+(* parents, converged populations, copies across pairs: selection with     *)
+(* replacement); populations of the n-point crossover are also RAGGED      *)
+(* (individuals of unequal length; cact.dim stays the problem dimension).  *)
 RealMut == {"NormalMutation", "UniformMutation", "PartialRandomSpread"}
 BitMut  == {"BitFlipMutation", "PartialRandomBitstring"}
 PermMut == {"ScrambleMutation", "SwapMutation", "InversionMutation", "InsertionMutation",
@@ -433,20 +496,52 @@ IsKCycle(s, t, k) ==
 
 Switches(p1, c1) ==     \* number of positions where the source parent changes (starting in p1)
     Cardinality({j \in 1..Len(c1) : (c1[j] = p1[j]) # (IF j = 1 THEN TRUE ELSE c1[j - 1] = p1[j - 1])})
-Complement(p1, p2, c1) == [j \in 1..Len(c1) |-> IF c1[j] = p1[j] THEN p2[j] ELSE p1[j]]
+(* the other child of a pair given one child: the other parent's length,   *)
+(* the other gene of every position both parents have, the longer parent's *)
+(* gene beyond                                                             *)
+Complement(p1, p2, c1) ==
+    LET mn == Lo(Len(p1), Len(p2))
+        long == LongOf(p1, p2)
+    IN [j \in 1..(Len(p1) + Len(p2) - Len(c1)) |->
+            IF j <= mn THEN (IF c1[j] = p1[j] THEN p2[j] ELSE p1[j]) ELSE long[j]]
 
-(* children of one crossed pair (parents carry pairwise distinct labels)   *)
+(* c1 is the first child of an n-point crossover with exactly np cuts.     *)
+(* Where the parents differ in every position the source of every gene is  *)
+(* visible and the cuts are the positions where it changes; where parents  *)
+(* share genes (duplicates in the population) some cut set must explain c1. *)
+PosDistinct(p1, p2) == \A j \in 1..Len(p1) : p1[j] # p2[j]
+NPointShape(np, p1, p2, c1) ==
+    IF PosDistinct(p1, p2) THEN Switches(p1, c1) = np
+    ELSE \E S \in SUBSET (0..Len(p1) - 1) :
+            /\ Cardinality(S) = np
+            /\ c1 = [j \in 1..Len(p1) |-> IF Cardinality({k \in S : k <= j - 1}) % 2 = 0 THEN p1[j] ELSE p2[j]]
+
+(* children of one crossed pair.  Equal lengths (the parents may be equal  *)
+(* or share genes): every gene of child 1 is a parental gene of its        *)
+(* position, child 2 holds the other ones, n-point / cycle structure.      *)
+(* Unequal lengths (accepted by the n-point crossover only): PairConserved. *)
 ChildrenOK(a, p1, p2, c1, c2) ==
-    /\ Len(c1) = Len(p1) /\ Len(c2) = Len(p2)
-    /\ \A j \in 1..Len(p1) : c1[j] \in {p1[j], p2[j]}
-    /\ c2 = Complement(p1, p2, c1)
-    /\ a.c = "NPointCrossover" => Switches(p1, c1) = a.np
-    /\ a.c = "CycleCrossover"  => <<c1, c2>> = CycleX(p1, p2)
+    IF Len(p1) = Len(p2)
+    THEN /\ Len(c1) = Len(p1) /\ Len(c2) = Len(p2)
+         /\ \A j \in 1..Len(p1) : c1[j] \in {p1[j], p2[j]}
+         /\ c2 = Complement(p1, p2, c1)
+         /\ a.c = "NPointCrossover" => NPointShape(a.np, p1, p2, c1)
+         /\ a.c = "CycleCrossover"  => <<c1, c2>> = CycleX(p1, p2)
+    ELSE a.c = "NPointCrossover" /\ PairConserved(p1, p2, c1, c2)
+(* ... of which only the first child is inserted                           *)
+FirstChildOK(a, p1, p2, c1) ==
+    IF Len(p1) = Len(p2)
+    THEN ChildrenOK(a, p1, p2, c1, Complement(p1, p2, c1))
+    ELSE /\ a.c = "NPointCrossover"
+         /\ Len(c1) \in {Len(p1), Len(p2)}
+         /\ PairConserved(p1, p2, c1, Complement(p1, p2, c1))
 
 (* pairing of parents and insertion of children (recombination/mod.rs):    *)
 (* a pair is crossed (never if pc = 0, always if pc = 1) and replaced by   *)
 (* both children / the first child, or both parents are kept; an odd       *)
-(* remainder is kept.                                                      *)
+(* remainder is kept.  Whether the two parents of a pair are equal plays   *)
+(* no role: a crossed pair of equal parents is replaced by one / two       *)
+(* children like every other pair.                                         *)
 RECURSIVE XMatch(_, _, _)
 XMatch(a, ps, os) ==
     IF Len(ps) = 0 THEN os = <<>>
@@ -458,10 +553,12 @@ XMatch(a, ps, os) ==
             /\ ChildrenOK(a, ps[1], ps[2], os[1], os[2])
             /\ XMatch(a, rest, SubSeq(os, 3, Len(os)))
          \/ /\ a.pr # 0 /\ a.both = 0 /\ Len(os) >= 1
-            /\ ChildrenOK(a, ps[1], ps[2], os[1], Complement(ps[1], ps[2], os[1]))
+            /\ FirstChildOK(a, ps[1], ps[2], os[1])
             /\ XMatch(a, rest, Tail(os))
 
-(* ArithmeticCrossover on real vectors: pin[j] = <<j,..>>, out[o] = tag of *)
+(* ArithmeticCrossover on real vectors: pin[j] = <<t,..>> with t the tag   *)
+(* of individual j = the least index of a bit-identical individual (j      *)
+(* itself unless the population contains duplicates), out[o] = tag of      *)
 (* the identical input or 0; pred[o][m] = 1 iff output o is finite and     *)
 (* coordinatewise between the parents of pair m (each end widened by 4 ulp *)
 (* of itself); pred2[o][m] = 1 iff out[o] + out[o+1] = sum of the parents  *)
@@ -482,12 +579,24 @@ AMatch(a, r, m, o, npairs) ==    \* m = next pair, o = next output (both 1-based
             /\ Len(r.out[o]) = a.dim /\ r.pred[o][m] = 1
             /\ AMatch(a, r, m + 1, o + 1, npairs)
 
-(* DE crossovers: positions taken from the base individual                 *)
+(* DE crossovers: positions taken from the base individual.  Where mutant  *)
+(* and base differ in every position this set is visible (FromBase); where *)
+(* they share genes (a mutation without effect, a converged population)    *)
+(* SOME set of positions of the required form must explain the outcome.    *)
 FromBase(a, r, j) == {c \in 1..a.dim : r.out[j][c] = a.base[j][c]}
 CircularRun(S, d) ==    \* S is a non-empty run of consecutive positions modulo d
     /\ S # {}
     /\ \/ S = 1..d
        \/ Cardinality({c \in S : ((c % d) + 1) \notin S}) = 1
+DEFormOK(a, S) ==
+    /\ a.c = "DEBinomialCrossover" => S # {} /\ (a.pr = 0 => Cardinality(S) = 1)
+    /\ a.c = "DEExponentialCrossover" => CircularRun(S, a.dim) /\ (a.pr = 0 => Cardinality(S) = 1)
+DETaken(a, r, j) ==
+    IF \A c \in 1..a.dim : a.pin[j][c] # a.base[j][c]
+    THEN DEFormOK(a, FromBase(a, r, j))
+    ELSE \E S \in SUBSET (1..a.dim) :
+            /\ r.out[j] = [c \in 1..a.dim |-> IF c \in S THEN a.base[j][c] ELSE a.pin[j][c]]
+            /\ DEFormOK(a, S)
 
 (* UniformMutation: a coordinate moves by at most the bound               *)
 MagOK(a, r) ==
@@ -561,12 +670,7 @@ CompRelE(a, r) ==
             /\ Fine(a, r) /\ SameShape(r.out, a.pin)
             /\ \A j \in 1..Len(a.pin) :
                   /\ \A c \in 1..a.dim : r.out[j][c] \in {a.pin[j][c], a.base[j][c]}
-                  /\ a.c = "DEBinomialCrossover" =>
-                        /\ FromBase(a, r, j) # {}
-                        /\ a.pr = 0 => Cardinality(FromBase(a, r, j)) = 1
-                  /\ a.c = "DEExponentialCrossover" =>
-                        /\ CircularRun(FromBase(a, r, j), a.dim)
-                        /\ a.pr = 0 => Cardinality(FromBase(a, r, j)) = 1
+                  /\ DETaken(a, r, j)
                   /\ a.pr = 2 => r.out[j] = a.base[j]
       [] OTHER -> FALSE
 
@@ -590,6 +694,10 @@ CompRel(a, r) == /\ RegOK(a, r)
                  /\ CompRelE(Eff(a), r)
 
 (* consistency of the logged argument projections                          *)
+MaxLenOf(pop) == IF pop = <<>> THEN 0 ELSE CHOOSE x \in {Len(pop[j]) : j \in 1..Len(pop)} :
+                                              \A j \in 1..Len(pop) : Len(pop[j]) <= x
+MinLen(a) == IF a.pin = <<>> THEN a.dim ELSE MinOf({Len(a.pin[j]) : j \in 1..Len(a.pin)})
+Ragged(pin) == \E i, j \in 1..Len(pin) : Len(pin[i]) # Len(pin[j])
 ValidComp(a) ==
     /\ a.c \in Comps
     /\ a.ctor \in Ctors(a.c)
@@ -611,8 +719,9 @@ ValidComp(a) ==
           /\ a.adapt[k].id \in {a.id} \cup {a.sibs[k2].id : k2 \in DOMAIN a.sibs}
           /\ \/ a.adapt[k].w = 1 /\ a.adapt[k].v \in 0..3
              \/ a.adapt[k].w = 2 /\ a.c \in StrComps /\ a.adapt[k].v \in 1..StTop \cup {StBad}
-    /\ a.nrel = (IF 1 <= a.np /\ a.np < a.dim THEN 0 ELSE 1)
-    /\ \A j \in 1..Len(a.pin) : Len(a.pin[j]) = a.dim
+    /\ a.nrel = (IF 1 <= a.np /\ a.np < MinLen(a) THEN 0 ELSE 1)
+    \* every individual has the problem dimension, except in the ragged populations of the n-point crossover
+    /\ \A j \in 1..Len(a.pin) : IF a.c = "NPointCrossover" THEN Len(a.pin[j]) >= 1 ELSE Len(a.pin[j]) = a.dim
     /\ a.c \in DEX => SameShape(a.base, a.pin)
     /\ a.c \notin DEX => a.base = <<>>
 
@@ -673,8 +782,14 @@ CompRateZeroReal ==
 CompStrengthBound ==
     (COk /\ cact.c = "UniformMutation") => AllIn(cres.mag, 0..OwnSt(cact))
 
+(* (the number of points of an n-point crossover lies in its valid range;   *)
+(* the other crossovers have no such parameter: nrel says nothing there)   *)
+PointsOK(a) == a.c = "NPointCrossover" => a.nrel = 0
+(* offspring counts follow insert_both and the crossover probability - for *)
+(* every crossover and whatever the parents look like (distinct, equal,    *)
+(* of unequal length)                                                      *)
 CompOffspringCount ==
-    (COk /\ cact.c \in Cross /\ cact.nrel = 0) =>
+    (COk /\ cact.c \in Cross /\ PointsOK(cact)) =>
         LET n == Len(cact.pin) IN
         /\ Len(cres.out) <= n
         /\ Len(cres.out) >= ((n \div 2) + (n % 2))
@@ -691,7 +806,7 @@ CompCtorVariant ==
           /\ cact.ctor = "new_insert_both" => cres.built[3] = 1
           /\ cact.ctor \in {"new", "from_params", "new_with_id"} =>
                 cres.built = <<cact.pr, cact.p2, cact.both, cact.st, cact.np>>
-    /\ (COk /\ cact.c \in Cross /\ cact.nrel = 0) =>
+    /\ (COk /\ cact.c \in Cross /\ PointsOK(cact)) =>
           /\ cact.ctor = "new_insert_both" => Len(cres.out) = n
           /\ (cact.ctor = "new_insert_single" /\ cact.pr = 2) => Len(cres.out) = ((n \div 2) + (n % 2))
     /\ (COk /\ cact.c = "PartialRandomBitstring" /\ cact.adapt = <<>>
@@ -705,9 +820,24 @@ CompDEFormat ==
 (* every offspring gene of a gene-exchanging crossover is a parental gene  *)
 (* of the same position (labels are position-specific in the model)        *)
 CompGenesFromParents ==
-    (COk /\ cact.c \in GeneX /\ cact.nrel = 0) =>
+    (COk /\ cact.c \in GeneX /\ PointsOK(cact)) =>
         \A o \in 1..Len(cres.out) : \A c \in 1..Len(cres.out[o]) :
-            \E j \in 1..Len(cact.pin) : cact.pin[j][c] = cres.out[o][c]
+            \E j \in 1..Len(cact.pin) : c <= Len(cact.pin[j]) /\ cact.pin[j][c] = cres.out[o][c]
+(* ... and with insert-both nothing is lost or duplicated: the population  *)
+(* after holds, position by position, exactly the genes of the population  *)
+(* before (as multisets), in individuals of the same lengths - whether the *)
+(* parents of a pair are equal, share genes, or differ in length           *)
+GenesAt(pop, c) == {j \in 1..Len(pop) : Len(pop[j]) >= c}
+CompGenesConserved ==
+    (COk /\ cact.c \in GeneX /\ PointsOK(cact) /\ OwnBoth(cact) = 1) =>
+        /\ Len(cres.out) = Len(cact.pin)
+        /\ \A n \in {Len(cact.pin[j]) : j \in 1..Len(cact.pin)} \cup {Len(cres.out[o]) : o \in 1..Len(cres.out)} :
+              Cardinality({o \in 1..Len(cres.out) : Len(cres.out[o]) = n})
+                  = Cardinality({j \in 1..Len(cact.pin) : Len(cact.pin[j]) = n})
+        /\ \A c \in 1..MaxLenOf(cact.pin) :
+              \A g \in {cact.pin[j][c] : j \in GenesAt(cact.pin, c)} \cup {cres.out[o][c] : o \in GenesAt(cres.out, c)} :
+                  Cardinality({o \in GenesAt(cres.out, c) : cres.out[o][c] = g})
+                      = Cardinality({j \in GenesAt(cact.pin, c) : cact.pin[j][c] = g})
 CompDEGenes ==
     (COk /\ cact.c \in DEX) =>
         \A j \in 1..Len(cres.out) : \A c \in 1..Len(cres.out[j]) :
